@@ -531,6 +531,7 @@ func vInfixShape(op pAst.InfixOperator) int {
 @*/
 
 /*@ func (self *Compiler) compileStmt
+    assert @for-iterates-over-a-snapshot after self.insert(newPrimitiveInstruction(Opcode_IntoIter), node.Range) :: self.emitted(1).Opcode() == Opcode_Clone && self.emitted(0).Opcode() == Opcode_IntoIter
     ghostat @loop-floor before-each self.pushLoop(Loop{ :: floor = ghost(depth)
     ghostat @floor-restored before-each self.insert(newOneStringInstruction(Opcode_Label, after_label) :: floor = old(ghost(floor))
     assert @no-pending-operands-at-loop-exit before-each self.leaveTryBlocks(self.currLoop().tryDepth, node.Span()) :: ghost(depth) == ghost(floor)
